@@ -17,7 +17,8 @@ CASE_TYPE = 'c20_case'
 CHECK = 'c20_check'
 SHOW = 'c20_show'
 SHARD = 40
-RULE = ('cases = (table of <= 40 rows x 1-4 numeric columns on a dyadic grid, target, tree source '
+RULE = ('cases = (table of <= 40 rows x 1-4 numeric columns on dyadic grids (integers, quarters, 1/1024, and finely resolved '
+        'float32-representable columns: neighbours 2**-23 apart around 0.5 and 2**-10, 2**-22 apart around 1, 2**20 + k), target, tree source '
         '[sklearn DecisionTreeRegressor depth 1/2/3/None x max_leaf_nodes None/3/4/6/8 (best-first growth: '
         'children numbered consecutively, not pre-order) x seed, tree of a bootstrapped RandomForestRegressor '
         '(same parameters), hand-made fitted tree with arbitrary node values, hand-made tree violating the fitted '
@@ -30,7 +31,10 @@ TRUSTED_EXTRA = ['scikit-learn fitting and tree.predict are outside the model: t
                  'hand-made trees are passed through from_decision_tree as a DecisionTreeRegressor whose tree_ '
                  'attribute carries the arrays',
                  'predictions are compared with the tolerance 1e-9*max(1,|x|); "original unchanged" exactly']
-ASSUMPTIONS = ['node 0 is the root and every parent has a smaller index than its children (true of scikit-learn depth-first '
+ASSUMPTIONS = ['data values are exactly representable in float32 (guard of the open finding D82) and below 2**23 in magnitude '
+               '(from there on thr + 1e-9 == thr in float64; harmless for float32 data because thresholds are midpoints, '
+               'but not generated)',
+               'node 0 is the root and every parent has a smaller index than its children (true of scikit-learn depth-first '
                'and best-first builders and of xgboost; _parse_dt_arrays_to_drules reads premises[parent] while filling the list)',
                'the tree is fitted on the table: every node is reached by a row and no value lies strictly '
                'between a threshold and threshold+1e-9 (checked in Coq on every case, counted as non-fitted otherwise)',
@@ -270,7 +274,8 @@ def random_table(rng, max_rows):
     w = rng.randint(1, 4)
     cols = []
     for _ in range(w):
-        kind = rng.choice(['int', 'int', 'smallint', 'quarter', 'fine', 'const', 'neg', 'binary'])
+        kind = rng.choice(['int', 'int', 'smallint', 'quarter', 'fine', 'const', 'neg', 'binary',
+                           'f32_half', 'f32_one', 'f32_small', 'big'])
         if kind == 'int':
             col = [Fraction(rng.randint(0, 20)) for _ in range(n)]
         elif kind == 'smallint':
@@ -279,6 +284,14 @@ def random_table(rng, max_rows):
             col = [Fraction(rng.randint(-20, 40), 4) for _ in range(n)]
         elif kind == 'fine':
             col = [Fraction(rng.randint(0, 8 * 1024), 1024) for _ in range(n)]
+        elif kind == 'f32_half':      # neighbouring float32-representable values around 0.5 (spacing 2**-23 = 1.19e-7,
+            col = [Fraction(1, 2) + Fraction(rng.randint(0, 12), 2 ** 23) for _ in range(n)]   # just above sklearn's 1e-7)
+        elif kind == 'f32_one':       # ... around 1 (float32 spacing there is 2**-23; 2**-22 steps can be split)
+            col = [1 + Fraction(rng.randint(0, 12), 2 ** 22) for _ in range(n)]
+        elif kind == 'f32_small':     # ... around 2**-10
+            col = [Fraction(1, 2 ** 10) + Fraction(rng.randint(0, 12), 2 ** 23) for _ in range(n)]
+        elif kind == 'big':           # large magnitude, coarse float32 spacing (still far below 2**23, where
+            col = [Fraction(2 ** 20 + rng.randint(0, 12)) for _ in range(n)]                  # thr + 1e-9 == thr)
         elif kind == 'const':
             col = [Fraction(rng.randint(-2, 2))] * n
         elif kind == 'neg':
